@@ -62,6 +62,105 @@ example : known Gen.details 15 = true ∧ emulate Gen.details 15 .inHandler = .k
 example : known Gen.details 20 = true ∧ emulate Gen.details 20 .inHandler = .stopped := by decide
 example : known Gen.details 300 = false ∧ emulate Gen.details 300 .normal = .err := by decide
 
+/-! ## Round sixteen: statements that do not go through the finite table
+
+The theorems above decide the property for the regenerated table by evaluation. The ones below are proved
+for *every* table `d` (any length, any rows) and every integer, so a change to the table's contents cannot make
+them true by accident, and they say which facts about a table the property actually rests on. -/
+
+/-- **C16.context_independent** — for every table, every integer and both calling contexts the outcome is the
+same: being inside the signal's own handler (signal blocked, dispatcher installed) never changes what the
+emulation does. -/
+theorem C16_context_independent (d : List (String × Int × DefaultKind)) (n : Int) :
+    emulate d n .inHandler = emulate d n .normal := by
+  unfold emulate
+  by_cases h : n = sigSTOP ∨ n = sigKILL
+  · rcases h with h | h <;> subst h <;> simp [raiseEffect, sigSTOP, sigKILL]
+  · simp only [h, if_false]
+
+/-- the class the kernel's default action of `n` falls in (`none`: not a signal number) -/
+def kernelKind (n : Int) : Option DefaultKind :=
+  match kernelDefault n with
+  | .continues => some .ignore
+  | .stopped => some .stop
+  | .killedBy _ => some .term
+  | .err => none
+
+/-- a table is *faithful* when every row's class is the kernel's class for the row's number -/
+def Faithful (d : List (String × Int × DefaultKind)) : Prop :=
+  ∀ row ∈ d, kernelKind row.2.1 = some row.2.2
+
+theorem findKind_mem (d : List (String × Int × DefaultKind)) (n : Int) (k : DefaultKind)
+    (h : findKind d n = some k) : ∃ row ∈ d, row.2.1 = n ∧ row.2.2 = k := by
+  simp only [findKind, Option.map_eq_some_iff] at h
+  obtain ⟨row, hf, hk⟩ := h
+  exact ⟨row, List.mem_of_find?_eq_some hf, by simpa using List.find?_some hf, hk⟩
+
+/-- **C16.faithful_table_matches_kernel** — for *every* faithful table, every number it lists and both contexts,
+the emulation's outcome is the kernel's default outcome. This is the parametric form of `C16_matches_kernel`:
+the only fact about the table it uses is `Faithful`. -/
+theorem C16_faithful_table_matches_kernel (d : List (String × Int × DefaultKind)) (hd : Faithful d)
+    (n : Int) (ctx : Ctx) (h : known d n = true) : emulate d n ctx = kernelDefault n := by
+  have hc : emulate d n ctx = emulate d n .normal := by
+    cases ctx
+    · rfl
+    · exact C16_context_independent d n
+  rw [hc]
+  simp only [known, Option.isSome_iff_exists] at h
+  obtain ⟨k, hk⟩ := h
+  obtain ⟨row, hmem, rfl, rfl⟩ := findKind_mem d n k hk
+  have hf := hd row hmem
+  unfold emulate
+  by_cases h9 : row.2.1 = sigSTOP ∨ row.2.1 = sigKILL
+  · rcases h9 with h9 | h9 <;> rw [h9] <;> simp [raiseEffect, sigSTOP, sigKILL, kernelDefault]
+  · simp only [h9, if_false, hk]
+    have hn19 : row.2.1 ≠ 19 := fun e => h9 (Or.inl e)
+    have hn9 : row.2.1 ≠ 9 := fun e => h9 (Or.inr e)
+    unfold kernelKind at hf
+    cases hkd : kernelDefault row.2.1 with
+    | continues => rw [hkd] at hf; cases hf' : row.2.2 <;> simp_all
+    | stopped =>
+      rw [hkd] at hf
+      have : row.2.2 = .stop := by simpa using hf.symm
+      simp [this, raiseEffect, sigSTOP]
+    | killedBy m =>
+      rw [hkd] at hf
+      have : row.2.2 = .term := by simpa using hf.symm
+      simp [this, raiseEffect, hn9, hn19, hkd]
+    | err => rw [hkd] at hf; cases hf
+
+/-- the regenerated table is faithful (finite table: evaluation is a proof) -/
+theorem C16_details_faithful : Faithful Gen.details := by
+  unfold Faithful; decide
+
+/-- **C16.killed_by_that_very_signal** — whenever emulating a known signal ends in termination, the terminating
+signal is that very number: never SIGABRT from the fallback `abort()`, never a neighbour. -/
+theorem C16_killed_by_that_very_signal (n m : Int) (ctx : Ctx) (h : known Gen.details n = true)
+    (hk : emulate Gen.details n ctx = .killedBy m) : m = n := by
+  rw [C16_faithful_table_matches_kernel Gen.details C16_details_faithful n ctx h] at hk
+  unfold kernelDefault at hk
+  split at hk
+  · cases hk
+  · split at hk
+    · cases hk
+    · split at hk
+      · cases hk
+      · split at hk
+        · injection hk with e; exact e.symm
+        · cases hk
+
+/-- **C16.abort_fallback_unreachable** — with a faithful table the trailing `abort()` is never what ends the
+process: for a terminating known signal other than SIGABRT itself, the outcome is not "killed by SIGABRT". -/
+theorem C16_abort_fallback_unreachable (n : Int) (ctx : Ctx) (h : known Gen.details n = true)
+    (hne : n ≠ sigABRT) : emulate Gen.details n ctx ≠ .killedBy sigABRT := by
+  intro hk
+  exact hne (C16_killed_by_that_very_signal n sigABRT ctx h hk).symm
+
+/-- an unfaithful table is detected by the parametric theorem's hypothesis, and really does misbehave: a table
+that files SIGCHLD (17) under `term` kills the process with SIGABRT where the kernel would let it continue -/
+example : ¬ Faithful [("SIGCHLD", 17, .term)] := by unfold Faithful; decide
+example : emulate [("SIGCHLD", 17, .term)] 17 .normal = .killedBy sigABRT ∧ kernelDefault 17 = .continues := by decide
+
 /-- **C16.emulation_skeleton** — tie to the source (regenerated): `emulate_default_handler` raises SIGKILL /
 SIGSTOP directly; otherwise it looks the number up *exactly* (`d.signal == signal`, no narrowing), answers
 `EINVAL` for a number that is not in the table, returns for an ignored signal, raises SIGSTOP for a stopping
